@@ -680,6 +680,7 @@ def execOp (ir : IR) (k : Nat) (pc : Nat) (op : Op) : P String := do
   | "fabort" => Fut.abort Heap.futL (op.num 0)
   | "fdetach" => Fut.detach Heap.futL (op.num 0)
   | "fis_finished" => Fut.isFinished Heap.futL (op.num 0)
+  | "fpoll" => Fut.pollOnce Heap.futL (op.num 0)
   | "wake" => do Fut.signal Heap.futL oi; pure "ok"
   | "wake_only" => do Fut.wakeOnly Heap.futL oi; pure "ok"
   | "acq_new" => Fut.acqNew Heap.futL Heap.semL (op.num 0) (ir.objIndex (op.arg 1)) (op.num 2)
